@@ -130,7 +130,8 @@ def judge(acc: Acc, case: dict) -> str | None:
 		raise exc
 	name = type(exc).__name__
 	acc.see('outcome', f'{path}: {stage}: ' + (name if isinstance(exc, Errors.Error) else 'NOT-AN-APP-ERROR:' + name))
-	if isinstance(exc, RecursionError):
+	if isinstance(exc, RecursionError) and (len(text) > 600 or max((len(l) - len(l.lstrip('\t')) for l in text.split('\n')), default=0) > 20):
+		# deeply nested input: running into the interpreter's recursion limit says nothing about tranp
 		acc.inconc('RecursionError (input nesting beyond the interpreter limit)', text[:120])
 		return
 	if not isinstance(exc, Errors.Error):
